@@ -131,6 +131,12 @@ class AppBase(BaseException):                 # e.g. asyncio.CancelledError / Ke
 
 
 def fail_safe_factory(cfg):
+    if cfg.get("level") == "hook":
+        return hook_factory(cfg)
+    return _unit_factory(cfg)
+
+
+def _unit_factory(cfg):
     """the environment is read once per configuration (as at interpreter start); every history gets a fresh FailSafe
     built by the constructor call of lunar_interceptor/__init__.py"""
     env = {}
@@ -276,7 +282,12 @@ def _app_exc(kind):
 def step(fs, e):
     """execute one event on the real object; returns the full event record with the observation."""
     rec = {"ev": e["ev"], "N": 0, "C": 0, "d": 0, "read": False, "out": "", "kind": "", "ans": True, "raised": "none"}
-    if e["ev"] == "adv":
+    rig = None
+    if isinstance(fs, HookRig):
+        rig, fs = fs, fs.fs
+    if e["ev"] == "req":
+        rig.req(e, rec)
+    elif e["ev"] == "adv":
         CLOCK.t += e["d"]
         rec["d"] = e["d"]
     elif e["ev"] == "ask":
@@ -314,7 +325,7 @@ def reset_rec(cfg):
     n, c = (5, 10) if cfg.get("default") else (cfg["N"], cfg["C"])
     unit = int(cfg.get("unit", 1))
     return {"ev": "reset", "N": n, "C": c * unit, "d": 0, "read": False, "out": "", "kind": "", "ans": True, "raised": "none",
-            "default": bool(cfg.get("default")), "unit": unit, "phase": int(cfg.get("phase", 0)), "Csec": c}
+            "default": bool(cfg.get("default")), "unit": unit, "phase": int(cfg.get("phase", 0)), "Csec": c, "level": cfg.get("level", "unit")}
 
 
 class Out:
@@ -360,7 +371,7 @@ def cmd_tree(spec_path, out_path):
                     ids[i + 1] = out.add(ids[i], rec)
                 else:
                     old = out.nodes[ids[i + 1] - 1]
-                    if any(old[f] != rec[f] for f in ("ans", "raised")):
+                    if any(old.get(f) != rec.get(f) for f in ("ans", "raised", "gw", "prov", "via", "araised")):
                         nondet += 1
             i = depth - 1
             while i >= 0 and path[i] == k - 1:
@@ -405,7 +416,8 @@ def cmd_trie(path, out_path):
         for e in s["events"]:
             rec = step(fs, e)
             execs += 1
-            k = (cur, e["ev"], e.get("d", 0), e.get("read", False), e.get("out", ""), e.get("kind", ""))
+            k = (cur, e["ev"], e.get("d", 0), e.get("read", False), e.get("out", ""), e.get("kind", ""), e.get("dest", ""),
+                 "/".join(e.get("attempts", [])), e.get("provider", ""))
             nid = kids.get(k)
             if nid is None:
                 nid = kids[k] = out.add(cur, rec)
@@ -480,6 +492,170 @@ def cmd_filter(path, out_path):
                         f.write(json.dumps(rec, separators=(",", ":"), sort_keys=True) + "\n")
                         n += 1
     print(json.dumps({"cases": n, "resolver_calls": RESOLVER.calls}))
+
+
+# ------------------------------------------------------------------ hook level (hooks/requests.py)
+# The real RequestsHook over a scripted transport.  Stand-ins only for the two third-party libraries the hook module imports
+# and that are not installed here: yarl.URL (the members the hook and its helpers use) and requests (Session.request =
+# the scripted transport, ConnectionError, models.CaseInsensitiveDict).  FailSafe, TrafficFilter, configuration, helpers,
+# RequestsHook are the repository's.
+from urllib.parse import urlsplit, urlunsplit
+
+
+class _URL:
+    _DEF = {"http": 80, "https": 443}
+
+    def __init__(self, url):
+        self._p = urlsplit(str(url))
+
+    scheme = property(lambda self: self._p.scheme)
+    host = property(lambda self: self._p.hostname)
+
+    @property
+    def port(self):
+        return self._p.port if self._p.port is not None else self._DEF.get(self.scheme)
+
+    def is_default_port(self):
+        return self._p.port is None or self._p.port == self._DEF.get(self.scheme)
+
+    def _rep(self, scheme=None, host=None, port=None):
+        scheme = scheme if scheme is not None else self.scheme
+        host = host if host is not None else self.host
+        port = port if port is not None else self._p.port
+        netloc = ("[%s]" % host if host and ":" in host else (host or "")) + (":%d" % port if port is not None else "")
+        return _URL(urlunsplit((scheme, netloc, self._p.path, self._p.query, self._p.fragment)))
+
+    def with_scheme(self, v):
+        return self._rep(scheme=v)
+
+    def with_host(self, v):
+        return self._rep(host=v)
+
+    def with_port(self, v):
+        return self._rep(port=v)
+
+    def __str__(self):
+        return urlunsplit(self._p)
+
+
+class _ReqConnectionError(StubRequestException):          # requests.ConnectionError
+    pass
+
+
+class _CIDict(CIDictRequests):
+    def __init__(self, data=None, **kw):
+        CIDictRequests.__init__(self, list(dict(data or {}).items()))
+
+    def copy(self):
+        return _CIDict(dict(self.items()))
+
+
+class _Response:
+    def __init__(self, origin, headers=None, status=200):
+        self.origin, self.status_code, self.content = origin, status, b"{}"
+        self.headers = _CIDict(headers or {})
+
+
+class _Transport:
+    def __init__(self):
+        self.handler = None
+
+    def send(self, method, url, headers):
+        return self.handler(method, url, headers)
+
+
+_TRANSPORT = _Transport()
+
+
+class _Session:
+    def request(self, method, url, *a, **kw):
+        return _TRANSPORT.send(method, url, kw.get("headers"))
+
+
+def _install_http_stand_ins():
+    y = types.ModuleType("yarl")
+    y.URL = _URL
+    sys.modules["yarl"] = y
+    r, m, ss = types.ModuleType("requests"), types.ModuleType("requests.models"), types.ModuleType("requests.sessions")
+    m.CaseInsensitiveDict, m.Response, ss.Session = _CIDict, _Response, _Session
+    r.models, r.sessions, r.Session, r.Response = m, ss, _Session, _Response
+    r.RequestException, r.ConnectionError = StubRequestException, _ReqConnectionError
+    r.get = lambda url, **kw: _Session().request("GET", url, **kw)
+    sys.modules.update({"requests": r, "requests.models": m, "requests.sessions": ss})
+
+
+_HOOKMOD = None
+GW_HOST = "gw.lunar.test"
+DESTS = {"pub": "api.pub.com", "excl": "blocked.partner.com", "int": "db.corp"}
+
+
+class HookRig:
+    """one application process: FailSafe + TrafficFilter + RequestsHook as lunar_interceptor/__init__.py wires them"""
+
+    def __init__(self, ns):
+        self.fs = _ev(_find_call("FailSafe"), ns)
+        self.tf = _ev(_find_call("TrafficFilter"), ns)
+        self.hook = _HOOKMOD.RequestsHook(LOGGER, self.fs, self.tf, ns["interceptor_config"].connection_config)
+        self.request = self.hook._hook_module()          # what init_hooks installs as requests.Session.request
+
+    def req(self, e, rec):
+        attempts = list(e["attempts"])
+        st = {"gw": 0, "prov": 0, "thrown": None, "pthrown": None}
+
+        def handler(method, url, headers):
+            host = urlsplit(url).hostname
+            if host == GW_HOST:
+                st["gw"] += 1
+                a = attempts.pop(0) if attempts else "ok"
+                if a == "ok":
+                    return _Response("gateway", {"Content-Type": "text/plain"})
+                if a == "err":
+                    return _Response("gateway", {e.get("errname", "x-lunar-error"): "3"}, 504)
+                if a == "retry":
+                    return _Response("gateway", {"x-lunar-retry-after": "0", "x-lunar-sequence-id": "seq-1"}, 429)
+                if a == "raise":
+                    raise _ReqConnectionError("gateway unreachable")
+                st["thrown"] = ValueError("bug in the application's transport adapter")
+                raise st["thrown"]
+            st["prov"] += 1
+            if e["provider"] == "raise":
+                st["pthrown"] = _ReqConnectionError("provider unreachable")
+                raise st["pthrown"]
+            return _Response("provider")
+        _TRANSPORT.handler = handler
+        url = "https://%s/v1/things?id=7" % DESTS[e["dest"]]
+        via, araised = "", "none"
+        try:
+            resp = self.request(_Session(), "POST", url, headers={"accept": "*/*"})
+            via = {"gateway": "gateway", "provider": "direct"}.get(getattr(resp, "origin", None), "other")
+        except BaseException as x:      # noqa: what reaches the application is the observation
+            araised = "same" if x is st["thrown"] else ("provider" if x is st["pthrown"] else "other")
+            if araised == "other":
+                rec["raised_type"] = type(x).__name__
+        rec.update(gw=st["gw"], prov=st["prov"], via=via, araised=araised, dest=e["dest"], final=e["final"],
+                   provider=e["provider"], attempts="/".join(e["attempts"]), errname=e.get("errname", "x-lunar-error"))
+
+
+def hook_factory(cfg):
+    global _HOOKMOD
+    env = {"LUNAR_ENTER_COOLDOWN_AFTER_ATTEMPTS": cfg["N"], "LUNAR_EXIT_COOLDOWN_AFTER_SEC": cfg["C"],
+           "LUNAR_BLOCK_LIST": DESTS["excl"], "LUNAR_PROXY_HOST": "%s:8000" % GW_HOST}
+    ns = build(env)
+    if _HOOKMOD is None:
+        _install_http_stand_ins()
+        with warnings.catch_warnings():
+            warnings.simplefilter("ignore")
+            _HOOKMOD = _load("lunar_interceptor.interceptor.hooks.requests")
+        _HOOKMOD.sleep = lambda s: None          # retry-after waits are not part of the observation
+    RESOLVER.table = {"api.pub.com": "93.184.216.34", "db.corp": "10.1.2.3", "blocked.partner.com": "93.184.216.35",
+                      GW_HOST: "93.184.216.36"}
+
+    def mk():
+        rig = HookRig(ns)
+        CLOCK.unit = int(cfg.get("unit", 1))
+        CLOCK.t = int(cfg.get("phase", 0))
+        return rig
+    return mk
 
 
 def cmd_probe():
